@@ -2209,6 +2209,36 @@ impl<'tcx> Cx<'tcx> {
             let t = self.sc(st, &argv[0])?;
             return Ok(Some(V::Sym(app("len", vec![t]))));
         }
+        // integer intrinsics on concrete operands (index arithmetic such as `last.saturating_sub(1)`)
+        if let Some(m) = pretty.strip_prefix("std::intrinsics::").or_else(|| pretty.strip_prefix("core::intrinsics::")) {
+            if let (Some(V::Int(a)), Some(V::Int(b)), Some(t0)) = (argv.first(), argv.get(1), argtys.first()) {
+                if t0.is_integral() && argv.len() == 2 {
+                    let (bits, signed) = self.int_bits(*t0);
+                    let sx = |x: u128| -> i128 {
+                        if signed && bits < 128 && (x >> (bits - 1)) & 1 == 1 { (x | (!0u128 << bits)) as i128 } else { x as i128 }
+                    };
+                    let (lo, hi): (i128, i128) = if signed {
+                        if bits >= 128 { (i128::MIN, i128::MAX) } else { (-(1i128 << (bits - 1)), (1i128 << (bits - 1)) - 1) }
+                    } else if bits >= 127 { (0, i128::MAX) } else { (0, (1i128 << bits) - 1) };
+                    let (x, y) = (sx(*a), sx(*b));
+                    let r: Option<i128> = if bits > 64 {
+                        None
+                    } else {
+                        match m {
+                            "saturating_add" => Some((x + y).clamp(lo, hi)),
+                            "saturating_sub" => Some((x - y).clamp(lo, hi)),
+                            "wrapping_add" | "unchecked_add" => Some(x + y),
+                            "wrapping_sub" | "unchecked_sub" => Some(x - y),
+                            "wrapping_mul" | "unchecked_mul" => Some(x.wrapping_mul(y)),
+                            _ => None,
+                        }
+                    };
+                    if let Some(r) = r {
+                        return Ok(Some(V::Int(Self::trunc(bits, r as u128))));
+                    }
+                }
+            }
+        }
         if pretty == "std::intrinsics::raw_eq" || pretty == "core::intrinsics::raw_eq" {
             // bytewise equality of two arrays of integers / bools (`[bool; N] == [bool; N]`): the conjunction of the element
             // equalities, evaluated without short-circuit
@@ -2494,6 +2524,26 @@ impl<'tcx> Cx<'tcx> {
             r
         } else {
             resolved
+        };
+        // slice sorting: std's implementations are outside the memory model; the analysed harness crate carries a plain stable
+        // insertion sort with the same generic signature (`__mirsum_sort_by` ...), which is interpreted instead
+        let resolved = match resolved {
+            Some(inst) if pretty.contains("slice::<impl [T]>::sort") => {
+                let m = pretty.rsplit("::").next().unwrap_or("");
+                let helper = match m {
+                    "sort_by" | "sort_unstable_by" => Some("__mirsum_sort_by"),
+                    "sort_by_key" | "sort_unstable_by_key" => Some("__mirsum_sort_by_key"),
+                    _ => None,
+                };
+                let found = helper.and_then(|h| {
+                    tcx.hir_body_owners().map(|l| l.to_def_id()).find(|d| matches!(tcx.def_kind(*d), rustc_hir::def::DefKind::Fn) && tcx.item_name(*d).as_str() == h)
+                });
+                match found {
+                    Some(hd) if tcx.generics_of(hd).count() == cargs.len() => Some(Instance::new_raw(hd, cargs)),
+                    _ => Some(inst),
+                }
+            }
+            r => r,
         };
         if let Some(inst) = resolved {
             let rpretty = tcx.def_path_str(inst.def_id());
